@@ -1714,7 +1714,7 @@ enhance(vbi_decoder *vbi,
 						pgno = vtp->data.lop.link[25].pgno;
 
 						if (NO_PAGE(pgno)) {
-							if ((i = mag->pop_lut[vtp->pgno & 0xFF]) == 0) {
+							if ((i = mag->pop_lut[vtp->pgno & 0xFF]) <= 0) {
 								printv("... MOT pop_lut empty\n");
 								return FALSE; /* has no link (yet) */
 							}
@@ -2031,7 +2031,7 @@ enhance(vbi_decoder *vbi,
 						pgno = vtp->data.lop.link[25].pgno;
 
 						if (NO_PAGE(pgno)) {
-							if ((i = mag->drcs_lut[vtp->pgno & 0xFF]) == 0) {
+							if ((i = mag->drcs_lut[vtp->pgno & 0xFF]) <= 0) {
 								printv("... MOT drcs_lut empty\n");
 								return FALSE; /* has no link (yet) */
 							}
@@ -2293,7 +2293,7 @@ default_object_invocation	(vbi_decoder *		vbi,
 	struct ttx_pop_link *pop;
 	int i, order;
 
-	if (!(i = mag->pop_lut[vtp->pgno & 0xFF]))
+	if ((i = mag->pop_lut[vtp->pgno & 0xFF]) <= 0)
 		return FALSE; /* has no link (yet) */
 
 	pop = &mag->pop_link[1][i];
